@@ -697,7 +697,7 @@ func runForced(r *vk.Run, sched *vk.Sched, sc scenario) {
 			// forced scenarios are deterministic: name the exact op pair and window
 			key = fmt.Sprintf("%s/%s", v.key, scKey(sc))
 		} else {
-			key = fmt.Sprintf("%s/%s", v.key, sc.Name)
+			key = fmt.Sprintf("%s/%s", v.key, scKey(sc))
 		}
 		r.Violation(key, fmt.Sprintf("scenario %+v\n%s", sc, v.detail), sc)
 	}
